@@ -29,12 +29,12 @@ const (
 
 type Elem struct {
 	Kind      ElemKind
-	Name      string  // referenced rule / token
-	Lit       string  // literal text
-	Lo, Hi    rune    // range
-	Alts      []*Alt  // block
-	Sub       *Elem   // negated element
-	Suffix    byte    // 0, '?', '*', '+'
+	Name      string // referenced rule / token
+	Lit       string // literal text
+	Lo, Hi    rune   // range
+	Alts      []*Alt // block
+	Sub       *Elem  // negated element
+	Suffix    byte   // 0, '?', '*', '+'
 	NonGreedy bool
 	id        int
 }
